@@ -405,3 +405,16 @@ Theorem zero_time_sentinel_refuted :
    spec_post_allowed Z Z.ltb 0 wit_cfg wit_fs3 (s2b "0001-01-01") = false /\
    sentinel_involved wit_fs3 = true).
 Proof. vm_compute. repeat split; reflexivity. Qed.
+
+(* ---- a process that mapped its count file while the mode was not off keeps
+   recording after the mode is switched to off, until its next rotation:
+   Add never reads the mode (known finding recording-until-rotation) ---- *)
+Definition wit_fs_local : fstate :=
+  {| fs_mode := Some (s2b "local 2024-01-01"); fs_local := Some []; fs_upload := None |}.
+Theorem recording_until_rotation_refuted :
+  let st := snd (exec Z Z.ltb 0 [OpOpen Z; OpSetMode Z (Some (s2b "off 2024-01-03"))] (wit_fs_local, PUnopened)) in
+  mode_of (fs_mode (fst st)) = m_off /\
+  fst (step Z Z.ltb 0 (OpAdd Z) st) = [ECounterAdd] /\
+  (* ... and the next rotation ends it *)
+  fst (exec Z Z.ltb 0 [OpRotate Z true; OpAdd Z; OpAdd Z] st) = [EReadMode].
+Proof. vm_compute. repeat split; reflexivity. Qed.
